@@ -30,6 +30,10 @@ TARGETED = [
     [('where', ('call', 'contains', [col('obj'), lit('"p": 1, "q"')])), ('fields', 'only', ['id'])],
     [('parse', '*"q": *,*', ['x', 'y', 'z'], col('obj'), False, False), ('fields', 'only', ['id', 'x', 'y', 'z'])],
     [('let', ('call', 'concat', [col('obj', ('k', 'r'))]), 'txt'), ('agg', [(None, ('count', None))], [(None, col('txt'))])],
+    # an order-sensitive stage between an aggregation and a LATER sort: it sees the groups in key order, not in hash order
+    [('agg', [('s', ('sum', col('a')))], [(None, col('k'))]), ('total', col('s'), 'running'), ('sort', [col('k')], None)],
+    [('agg', [(None, ('count', None))], [(None, col('k')), (None, col('g'))]), ('where', ('cmp', 'gt', col('_count'), lit(0))), ('limit', 2), ('sort', [col('k')], None)],
+    [('agg', [(None, ('count', None))], [(None, col('s'))]), ('total', col('_count'), None), ('fields', 'except', ['s']), ('sort', [col('_total')], 'desc')],
     # records as they come, and sorted records: the column order of the text modes
     [],
     [('sort', [col('id')], 'desc')],
